@@ -99,7 +99,8 @@ theorem C07_exit_flushes_last (s0 : BSt) (h0 : DrainFresh s0) (ops : List Op) :
     rw [hap, if_neg (by rw [hg]; simp), ← hform]
   refine ⟨sK, heK, hs', ?_⟩
   rw [hs']
-  obtain ⟨d, hd, hall⟩ := cleanupLoggers_dtors (cleanupContexts (flushSinks (checkFailures (runInj []) (allEmpty sK).1)))
+  obtain ⟨d, hd, hall⟩ := cleanupLoggers_dtors (runInj []) runInj_nil_quiet9
+    (cleanupContexts (flushSinks (checkFailures (runInj []) (allEmpty sK).1)))
   refine ⟨d, ?_, hall⟩
   show (exitFinal (runInj []) sK).log = _
   unfold exitFinal
